@@ -29,6 +29,7 @@ type Info struct {
 	ThoroughSecs  int
 	ProbeKeys     []string // counters that should be non-zero (probes_zero otherwise)
 	EventsKey     string
+	ShrinkBudget  int // 0: driver default
 }
 
 // Unit is the driver-side context of one unit.
